@@ -69,7 +69,7 @@ def build(ctx, rule):
         if any(isinstance(x, ast.IfExp) for x in ast.walk(f_.node)):
             setattr(g, k, inline_callable_aliases(sink_into_branches(desugar_ifexp(f_))))
     for k in ("remove_edge", "remove_node", "add_node", "add_edge"):
-        setattr(g, k, unroll_const_loops(tail_inlined(repo, getattr(g, k), keep=lambda c: c.name in ("add_edge", "remove_edge", "add_node", "remove_node") or c.name.startswith(("add_from_", "remove_from_")))))
+        setattr(g, k, unroll_const_loops(tail_inlined(repo, hoist_calls(repo, getattr(g, k)), keep=lambda c: c.name in ("add_edge", "remove_edge", "add_node", "remove_node") or c.name.startswith(("add_from_", "remove_from_")))))
     return g
 
 
